@@ -20,6 +20,12 @@ TYPES = {
     "char": (["x", "é"], "xy", "q", "'z'", "'z'", "'\\0'"),
     "bool": (["true"], "yes", "true", "true", "true", "false"),
     "&str": (["v", ""], None, "dflt", '"dx"', '"dx"', '""'),
+    # rarely used widths (boundary values of the type as valid / invalid tokens)
+    "i8": (["127", "+5"], "128", "-128", "-3", "-3", "0"),
+    "u128": (["340282366920938463463374607431768211455"], "340282366920938463463374607431768211456", "18446744073709551616", "7", "7", "0"),
+    "f64": (["1e3", "inf"], "1e", "0.1", "2.5e-3", "0.0025", "0.0"),
+    "usize": (["0"], "-1", "42", "usize::MAX", "18446744073709551615", "0"),
+    "i64": (["-9223372036854775808"], "9223372036854775808", "-1", "i64::MIN", "-9223372036854775808", "0"),
 }
 OPTS = ["required", "option", "default_value", "default_value_t_expr", "default_value_t"]
 NAMINGS = ["short", "long", "both", "short_custom", "long_custom", "both_custom", "short_gen_long_custom", "short_custom_long_gen"]
